@@ -12,7 +12,7 @@ use vkit::util::Args;
 
 /// "valided": valid for the host, under a second, tiny Ed25519 root (its DER encoding is shorter than 256 bytes)
 pub const LEAVES: [&str; 7] = ["valid", "wronghost", "expired", "selfsigned", "unknownca", "valided", "justexpired"];
-pub const ROOTS: [&str; 7] = ["none", "pem", "der", "unrelated", "edpem", "edder", "pemcrlf"];
+pub const ROOTS: [&str; 8] = ["none", "pem", "der", "unrelated", "edpem", "edder", "pemcrlf", "pemtext"];
 pub const IGNORE: [Option<bool>; 3] = [None, Some(false), Some(true)];
 
 fn request(id: u32) -> Model {
@@ -35,6 +35,8 @@ pub fn run(args: &Args, tier: &str, seed: u64, backend: &str) -> Report {
     let root_bytes = |r: &str| -> Option<Vec<u8>> {
         match r {
             "pem" => Some(read("ca1.pem")),
+            // the PEM block preceded by the text dump `openssl x509 -text` writes in front of it
+            "pemtext" => Some(read("ca1.text.pem")),
             // the same PEM root with CRLF line endings and a comment line in front (as exported on other platforms)
             "pemcrlf" => Some(format!("# verif ca1\r\n{}", String::from_utf8_lossy(&read("ca1.pem")).replace('\n', "\r\n")).into_bytes()),
             "der" => Some(read("ca1.der")),
@@ -100,7 +102,7 @@ pub fn run(args: &Args, tier: &str, seed: u64, backend: &str) -> Report {
                                 if reduced && !(matches!(leaf, "valid" | "wronghost" | "expired") && matches!(root, "none" | "pem" | "der") && ignore != Some(false)) {
                                     continue;
                                 }
-                                let should_accept = ignore == Some(true) || ((root == "pem" || root == "der" || root == "pemcrlf") && leaf == "valid") || ((root == "edpem" || root == "edder") && leaf == "valided");
+                                let should_accept = ignore == Some(true) || ((root == "pem" || root == "der" || root == "pemcrlf" || root == "pemtext") && leaf == "valid") || ((root == "edpem" || root == "edder") && leaf == "valided");
                                 let resp = response.clone();
                                 srv.on(&id, Arc::new(move |_r: &Req| Plan::ok(resp.clone())));
                                 let events_before = srv.log.lock().unwrap().len();
@@ -178,9 +180,9 @@ pub fn run(args: &Args, tier: &str, seed: u64, backend: &str) -> Report {
     }
     let mut rep = rep_m.into_inner().unwrap();
     rep.extra.insert("tls_backend_of_this_build".into(), J::Str(backend.to_string()));
-    rep.rule = format!("Complete matrix for the {backend} build: {{blocking, async}} x ignore_tls_errors {{unset, false, true}} x extra root {{none, correct CA as PEM, as DER, unrelated CA, second (tiny Ed25519, DER < 256 bytes and ending in a 0x0a octet) CA as PEM, as DER, correct CA as PEM with CRLF line endings and a leading comment line}} x server certificate {{valid for localhost, wrong host name, expired, self-signed, signed by an unknown CA, valid under the second CA, expired less than a minute before the run}} = 294 cells per TLS backend build, the target written ipps:// or https:// (quick: one spelling per cell chosen by cell hash and seed; thorough: both, x {{1.2+1.3, 1.2-only, 1.3-only}} peers), against a loopback rustls peer with freshly generated CAs. Oracle: accept <=> ignore == true or the supplied root (PEM or DER) is the one the valid leaf chains to; in every rejected cell the peer application must have received zero decrypted bytes. Four builds are run and merged by the driver: both clients on native-tls, both on rustls (full matrix each), and the two mixed builds - blocking native-tls + async rustls, blocking rustls + async native-tls - with the full matrix in thorough and a 36-cell sub-matrix ({{valid, wrong host, expired}} x {{no root, PEM, DER}} x {{unset, true}} x 2 clients) in quick.");
+    rep.rule = format!("Complete matrix for the {backend} build: {{blocking, async}} x ignore_tls_errors {{unset, false, true}} x extra root {{none, correct CA as PEM, as DER, unrelated CA, second (tiny Ed25519, DER < 256 bytes and ending in a 0x0a octet) CA as PEM, as DER, correct CA as PEM with CRLF line endings and a leading comment line, correct CA as PEM behind its `openssl x509 -text` dump}} x server certificate {{valid for localhost, wrong host name, expired, self-signed, signed by an unknown CA, valid under the second CA, expired less than a minute before the run}} = 336 cells per TLS backend build, the target written ipps:// or https:// (quick: one spelling per cell chosen by cell hash and seed; thorough: both, x {{1.2+1.3, 1.2-only, 1.3-only}} peers), against a loopback rustls peer with freshly generated CAs. Oracle: accept <=> ignore == true or the supplied root (PEM or DER) is the one the valid leaf chains to; in every rejected cell the peer application must have received zero decrypted bytes. Four builds are run and merged by the driver: both clients on native-tls, both on rustls (full matrix each), and the two mixed builds - blocking native-tls + async rustls, blocking rustls + async native-tls - with the full matrix in thorough and a 36-cell sub-matrix ({{valid, wrong host, expired}} x {{no root, PEM, DER}} x {{unset, true}} x 2 clients) in quick.");
     if only.is_none() {
-        let want = if reduced { 36 } else { 294 * version_sets.len() * if tier == "thorough" { 2 } else { 1 } };
+        let want = if reduced { 36 } else { 336 * version_sets.len() * if tier == "thorough" { 2 } else { 1 } };
         rep.require(rep.evaluations as usize >= want, "all cells of the matrix executed");
     }
     rep.assumptions.push("trust decisions are those of OpenSSL / rustls as shipped in this image; system roots do not vouch for the freshly generated CAs".into());
